@@ -171,7 +171,9 @@ def rule_transition_table(ctx, R="C29.table"):
                 continue
             t = st.targets[0]
             base = t.value.value.id
-            if not any(isinstance(c, ast.Call) and call_attr(c) == "append" and len(c.args) == 1 and dotted(c.args[0]) == base and dotted(c.func.value) == "asg_tmp"
+            holders = {dotted(x.value) for x in ast.walk(ex.node) if isinstance(x, ast.Assign) and len(x.targets) == 1 and dotted(x.targets[0]) == "asg_vf" and
+                       isinstance(x.value, ast.Name)}
+            if not any(isinstance(c, ast.Call) and call_attr(c) == "append" and len(c.args) == 1 and dotted(c.args[0]) == base and dotted(c.func.value) in holders
                        for c in ast.walk(ex.node)):
                 continue
             if not (isinstance(t.slice, ast.Name) and isinstance(t.value.slice, ast.Name)):
@@ -179,7 +181,8 @@ def rule_transition_table(ctx, R="C29.table"):
             first, second = t.value.slice.id, t.slice.id
             slots = {}
             for x in ast.walk(ast.Module(body=b[:i], type_ignores=[])):
-                if isinstance(x, ast.Assign) and len(x.targets) == 1 and isinstance(x.targets[0], ast.Subscript) and dotted(x.targets[0].value) == "arg":
+                # the two-slot window handed to the predicate: W[0] = current level, W[-1] = previous level (any local name)
+                if isinstance(x, ast.Assign) and len(x.targets) == 1 and isinstance(x.targets[0], ast.Subscript) and isinstance(x.targets[0].value, ast.Name):
                     k = ast.unparse(x.targets[0].slice)
                     r = _row_of(b, i, x.value)
                     if k in ("0", "-1") and r is not None:
@@ -193,41 +196,55 @@ def rule_transition_table(ctx, R="C29.table"):
                       "the table is transposed with respect to the readers that index it [previous][current]" % (
                           base, first, second, second, "0" if slots["0"] == second else "-1"), st)
     # ---- readers
+    def is_lookup(v):
+        return (isinstance(v, ast.Subscript) and isinstance(v.value, ast.Subscript) and isinstance(v.value.value, ast.Subscript) and
+                dotted(v.value.value.value) == "asg_vf")
     for f in list(ctx.repo.all_functions):
         if f.module.short.split(".")[-1] != "scattered_map_core":
             continue
         for b in _blocks(f.node):
             for i, st in enumerate(b):
-                if not (isinstance(st, ast.Assign) and len(st.targets) == 1 and isinstance(st.targets[0], ast.Name)):
-                    continue
-                v = st.value
-                if not (isinstance(v, ast.Subscript) and isinstance(v.value, ast.Subscript) and isinstance(v.value.value, ast.Subscript) and
-                        dotted(v.value.value.value) == "asg_vf"):
-                    continue
-                ans = st.targets[0].id
-                ra, rb = _row_of(b, i, v.value.slice), _row_of(b, i, v.slice)
-                sink = None
-                for later in b[i + 1:]:
-                    if isinstance(later, ast.Assign) and len(later.targets) == 1 and isinstance(later.targets[0], ast.Subscript) and dotted(later.value) == ans:
-                        sink = ast.unparse(later.targets[0].value)
-                        break
-                    if isinstance(later, ast.If) and isinstance(later.test, ast.Compare) and len(later.test.comparators) == 1:
-                        sides = [later.test.left, later.test.comparators[0]]
-                        if any(dotted(x) == ans for x in sides):
-                            other = [x for x in sides if dotted(x) != ans]
-                            if other and isinstance(other[0], ast.Subscript):
-                                sink = ast.unparse(other[0].value)
+                # the statement's own expressions (not those of nested blocks)
+                own = []
+                for fld, val in ast.iter_fields(st):
+                    if fld in ("body", "orelse", "finalbody", "handlers"):
+                        continue
+                    for x in (val if isinstance(val, list) else [val]):
+                        if isinstance(x, ast.AST):
+                            own += [y for y in ast.walk(x) if is_lookup(y)]
+                for v in own:
+                    ra, rb = _row_of(b, i, v.value.slice), _row_of(b, i, v.slice)
+                    sink = None
+                    if isinstance(st, ast.Assign) and len(st.targets) == 1 and st.value is v and isinstance(st.targets[0], ast.Subscript):
+                        sink = ast.unparse(st.targets[0].value)            # ROW[cell] = table[..][..]
+                    elif isinstance(st, ast.If) and isinstance(st.test, ast.Compare) and len(st.test.comparators) == 1 and \
+                            any(x is v for x in (st.test.left, st.test.comparators[0])):
+                        other = [x for x in (st.test.left, st.test.comparators[0]) if x is not v]
+                        if isinstance(other[0], ast.Subscript):
+                            sink = ast.unparse(other[0].value)             # if table[..][..] != ROW[cell]
+                    elif isinstance(st, ast.Assign) and len(st.targets) == 1 and isinstance(st.targets[0], ast.Name) and st.value is v:
+                        ans = st.targets[0].id
+                        for later in b[i + 1:]:
+                            if isinstance(later, ast.Assign) and len(later.targets) == 1 and isinstance(later.targets[0], ast.Subscript) and dotted(later.value) == ans:
+                                sink = ast.unparse(later.targets[0].value)
                                 break
-                    if any(isinstance(x, ast.Name) and x.id == ans and isinstance(x.ctx, ast.Store) for x in ast.walk(later)):
-                        break
-                if ra is None or rb is None or sink is None:
-                    raise AnalysisError("%s: transition table lookup `%s` not understood (rows %s / %s, sink %s)" % (f.fq, ast.unparse(v), ra, rb, sink))
-                n += 1
-                ctx.check(rb[0] == sink and ra[0] != sink and ra[1] == rb[1], R, f, "transition table reader in %s" % f.name,
-                          "the lookup is [other row][row that receives the answer] at one cell",
-                          "%s looks the transition level up as `%s` with first index from `%s[%s]` and second index from `%s[%s]`, and the answer belongs to `%s`: the second "
-                          "index must come from the row the answer belongs to (the current trial), the first from the previous trial's row, as the table is written" % (
-                              f.name, ast.unparse(v), ra[0], ra[1], rb[0], rb[1], sink), st)
+                            if isinstance(later, ast.If) and isinstance(later.test, ast.Compare) and len(later.test.comparators) == 1:
+                                sides = [later.test.left, later.test.comparators[0]]
+                                if any(dotted(x) == ans for x in sides):
+                                    other = [x for x in sides if dotted(x) != ans]
+                                    if other and isinstance(other[0], ast.Subscript):
+                                        sink = ast.unparse(other[0].value)
+                                        break
+                            if any(isinstance(x, ast.Name) and x.id == ans and isinstance(x.ctx, ast.Store) for x in ast.walk(later)):
+                                break
+                    if ra is None or rb is None or sink is None:
+                        raise AnalysisError("%s: transition table lookup `%s` not understood (rows %s / %s, sink %s)" % (f.fq, ast.unparse(v), ra, rb, sink))
+                    n += 1
+                    ctx.check(rb[0] == sink and ra[0] != sink and ra[1] == rb[1], R, f, "transition table reader in %s" % f.name,
+                              "the lookup is [other row][row that receives the answer] at one cell",
+                              "%s looks the transition level up as `%s` with first index from `%s[%s]` and second index from `%s[%s]`, and the answer belongs to `%s`: the second "
+                              "index must come from the row the answer belongs to (the current trial), the first from the previous trial's row, as the table is written" % (
+                                  f.name, ast.unparse(v), ra[0], ra[1], rb[0], rb[1], sink), st)
     ctx.require(n >= 5, "transition table: only %d writer/reader sites found (1 writer and 4 readers confirmed by hand)" % n)
 
 
